@@ -214,7 +214,7 @@ def run(R):
     cfgs = [(8, 2), (2, 4), (32, 1)] if quick else [(8, 1), (8, 2), (8, 3), (1, 8), (2, 4), (4, 2), (32, 1), (32, 2)]
     R.bounds.update(dict(blocks=f"<= {nblocks} blocks (and initial plan quotient <= {nblocks}); longer plans cut and counted",
                          ints="N, gulp, start, nsamps (or None), maxdelay, per-channel delays, channel index: unbounded integers",
-                         configs=[f"nbits={b},nchans={c}" for b, c in cfgs], files="1..2 (quick) / 1..3 (thorough)"))
+                         configs=[f"nbits={b},nchans={c}" for b, c in cfgs], files="1..2 (quick) / 1..3 (thorough; dedisperse at 1/2/4 bits on one file only)"))
     R.assume("sample values are such that float32 sums are exact (arithmetic decided over the reals)",
              "kernel contracts (extract_tim, extract_bpass, dedisperse, compute_online_moments*) as established from the numba IR",
              "dispersion delays are 0 at the first channel, non-decreasing and at most maxdelay (descending band, DM >= 0); maxdelay < nsamps",
@@ -233,8 +233,11 @@ def run(R):
                     if quick and none and (nfiles > 1 or nbits != 8):
                         continue
                     nb = nblocks if nfiles < 3 else min(nblocks, 3)
-                    if op == "dedisperse" and nbits < 8 and nfiles >= 2:
-                        nb = min(nb, 3)      # measured: 4 blocks of sub-byte dedispersion over 2 files leave z3 undecided for > 180 s per branch
+                    if op == "dedisperse" and nbits < 8 and nfiles >= 2 and not quick:
+                        # measured twice on an idle machine: sub-byte dedispersion over several files leaves z3 undecided for
+                        # > 180 s per query and single items beyond 45 min.  Multi-file dedispersion is explored at 8/32 bits,
+                        # sub-byte dedispersion on one file; sub-byte multi-file reading itself is C01/C02 and the other reductions
+                        continue
                     items.append((op, nbits, nchans, nfiles, none, nb, 2 if quick else 15, 200 if quick else 1500))
     from sigpyproc.core import kernels as K
     for kn in ("extract_tim", "extract_bpass", "dedisperse"):
